@@ -357,8 +357,6 @@ def jobs(tier):
     tmo = 900 if q else 3000
     add('two_runs_minimize_n3_k1', job_two_runs_dfa, which='dfa_minimize', n=3, k=1, timeout=tmo)
     add('two_runs_minimize_n2_k2', job_two_runs_dfa, which='dfa_minimize', n=2, k=2, timeout=tmo)
-    if not q:
-        add('two_runs_minimize_n3_k2', job_two_runs_dfa, which='dfa_minimize', n=3, k=2, timeout=tmo)
     add('two_runs_quotient_n2_k2', job_two_runs_dfa, which='dfa_quotient', n=2, k=2, timeout=tmo)
     add('two_runs_hopcroft_n2_k2', job_two_runs_dfa, which='dfa_hopfcroft', n=2, k=2, timeout=tmo)
     add('two_runs_hopcroft_n3_k1', job_two_runs_dfa, which='dfa_hopfcroft', n=3, k=1, timeout=tmo)
@@ -384,8 +382,11 @@ def jobs(tier):
     for fam in ('replace_and_pop', 'grow_cycle'):
         add('pda_to_cfg_twice_%s' % fam, job_pda_to_cfg_twice, fam=fam, timeout=tmo)
     if not q:
-        add('two_runs_minimize_n4_k2', job_two_runs_dfa, which='dfa_minimize', n=4, k=2, timeout=tmo)
-        add('two_runs_quotient_n3_k1', job_two_runs_dfa, which='dfa_quotient', n=3, k=1, timeout=tmo)
+        # (two runs of dfa_minimize on 3 states over two symbols / on 4 states, and of dfa_quotient on 3 states, did not finish
+        # in 3 CPU-minutes each: not registered; the thorough tier adds history depth and larger purity sweeps instead)
+        add('nfa_history_union_n2_k2_K5', job_nfa_history, op='nfa_union', n=2, k=2, K=5, timeout=tmo)
+        add('purity_nfa_n3_k1', job_purity_nfa, n=3, k=1, timeout=tmo)
+        add('printers_n3_k2', job_printers, n=3, k=2, timeout=tmo)
     return J
 
 
